@@ -264,6 +264,7 @@ def c08(A, ctx, tier):
     degenerate.r_div(A, ctx, dict(floor=8), where=where, rule="R-DIV-SCORE")
     blockpen.r_deriv_pen_block(A, ctx, dict(floor=180))
     kernels.r_fixpoint(A, ctx, dict(floor=5))
+    blockpen.r_ispen(A, ctx, dict(floor=20))
     ctx.assume("that the regular subdifferential is the right notion at non-convex kinks is a "
                "mathematical fact, not decided")
     return dict(explanation="for every separable penalty and every order region of w_j the "
